@@ -1,0 +1,19 @@
+"""
+Trace hooks for external verification tooling.
+
+Disabled unless the environment variable ``KOPF_VERIF_TRACE=1`` is set when
+the module is imported, and even then inert until a sink is installed.
+The hooks only report what has just happened (an event name and a few scalars);
+they never change the behaviour of the framework.
+"""
+import os
+from collections.abc import Callable
+from typing import Any
+
+enabled: bool = os.environ.get('KOPF_VERIF_TRACE') == '1'
+sink: Callable[[str, dict[str, Any]], None] | None = None
+
+
+def emit(event: str, **fields: Any) -> None:
+    if enabled and sink is not None:
+        sink(event, fields)
